@@ -424,6 +424,25 @@ theorem C15_from_ref (g : G) (r : String) (hm : NoMixed g)
       (gitCheckoutRef g r).g.wt.find? p = g.wt.find? p :=
   checkoutRef_facts g r hm hfree
 
+/-- **C15, `--from-ref` with a value that is not a reference** (a file name, a directory, `.`, a
+    misspelt branch): `git checkout <value> --` fails, and with it the command, and NOTHING of the
+    user's changes: every index entry, every work-tree file, the stash list, HEAD, the refs and the
+    commits are what they were - for every state of the fragment.  (Before the repair F35 the value
+    was passed without the closing `--`, so a value naming a path made Git restore that path from
+    the index: `xvc --from-ref . file list` discarded every unstaged edit. The model's `gitCheckout`
+    has always been a checkout of a REFERENCE; the repair makes the code say the same.) -/
+theorem C15_from_ref_not_a_reference (g : G) (r : String) (hm : NoMixed g) (hn : lookupRef g.refs r = none) :
+    (gitCheckoutRef g r).status = .gitError ∧
+    (gitCheckoutRef g r).g.head = g.head ∧ (gitCheckoutRef g r).g.stash = g.stash ∧
+    (gitCheckoutRef g r).g.commits = g.commits ∧ (gitCheckoutRef g r).g.refs = g.refs ∧
+    ∀ p, (gitCheckoutRef g r).g.index.find? p = g.index.find? p ∧
+         (gitCheckoutRef g r).g.wt.find? p = g.wt.find? p := by
+  have ht : targetTree g r = g.headTree := by unfold targetTree; rw [hn]
+  have h := C15_from_ref g r hm (by intro p hp; rw [ht] at hp; exact absurd rfl hp)
+  obtain ⟨_, hs, hc, hr, _, hnone, hp⟩ := h
+  obtain ⟨hh, hst⟩ := hnone hn
+  exact ⟨hst, hh, hs, hc, hr, fun p => hp p (by rw [ht])⟩
+
 /-! ## the ref clause in full: refs are only ever extended, an existing `--to-branch` target is refused -/
 
 /-- `a` is `b` or an ancestor of `b` along `parent` links (`git merge-base --is-ancestor a b`);
@@ -964,6 +983,8 @@ open Git in
 #print axioms C15_command_readonly
 open Git in
 #print axioms C15_from_ref
+open Git in
+#print axioms C15_from_ref_not_a_reference
 open Git in
 #print axioms C15_no_git
 open Git in
